@@ -63,6 +63,7 @@ class Contract:
     options: dict = field(default_factory=dict)    # engine switches for this function (e.g. {"json_loads": "object"})
     seq_lemmas: bool = False                       # state list.append element-wise as well (helps quantified index invariants)
     covers: dict = field(default_factory=dict)     # name -> post-state condition that must be REACHABLE on some normal return
+    bounded_extra: str | None = None               # a bounded native check run IN ADDITION to the proof (catches rewrites the sidecar cannot follow)
     bounded_clauses: list = field(default_factory=list)   # with `bounded`: ONLY these ensures clauses (globs) are left to the stand-in, the rest is proved
     bounded: str | None = None                     # name of a bounded stand-in (replaylib/bounded.py); implies not proved
     setup: object = None                           # callable(ip, env): installs concrete parts of the pre-state (representation)
